@@ -223,6 +223,10 @@ Loop:
 			if isEdited {
 				prevInSlice = inSlice
 				editOffset := 0
+				if !inSlice {
+					// the edits go into a copy: the tree handed to Visit is not modified
+					node = cloneNode(node)
+				}
 				for _, edit := range edits {
 					if inSlice {
 						if isNilNode(edit.Value) {
@@ -431,6 +435,17 @@ Loop:
 		result = edits[len(edits)-1].Value
 	}
 	return result
+}
+
+// cloneNode returns a shallow copy of a struct node; anything else is returned as it is.
+func cloneNode(node interface{}) interface{} {
+	v := reflect.ValueOf(node)
+	if v.Kind() != reflect.Ptr || v.IsNil() || v.Elem().Kind() != reflect.Struct {
+		return node
+	}
+	c := reflect.New(v.Elem().Type())
+	c.Elem().Set(v.Elem())
+	return c.Interface()
 }
 
 func pop(a []interface{}) (interface{}, []interface{}) {
